@@ -63,7 +63,12 @@ def stepLine (dom : String) (st : DState) (full : String) : DState × String :=
     | "qe" =>
       let (qs, m, s, t) := GoRes.Driver.QE.run st.qe args impl
       ({ st with qe := qs }, m ++ "\t" ++ s ++ "\t" ++ t)
-    | "race" => (st, "done\tdone\trace-scenario")
+    | "race" =>
+      -- the race domain's verdict comes from the race detector; an idle query scenario
+      -- (no callback ran before Shutdown) is accepted but gives no coverage tag
+      if impl == "done-idle" then (st, "done-idle\tdone-idle\trace-q-idle")
+      else if line.startsWith "raceq" then (st, "done\tdone\trace-q-active")
+      else (st, "done\tdone\trace-scenario")
     | "legacy" =>
       let (ls, m, s, t) := GoRes.Driver.Legacy.run st.legacy args
       ({ st with legacy := ls }, m ++ "\t" ++ s ++ "\t" ++ t)
